@@ -160,6 +160,7 @@ structure Doc where
   current : Option Ns := none
   nodes : List RNode := []               -- in push order
   knownNodes : List RNode := []          -- what the importer had read before; lookups only
+  resolving : List (String × Option String × String) := []   -- forward references being resolved (name, namespace, kind)
   messages : List Msg := []
   ports : List Port := []
   bindings : List Binding := []
